@@ -130,7 +130,7 @@ def run_history(built, history, universe, model=None, check_purity=True, on_step
             return [{"read": "op:" + op[0], "key": op[1], "kind": "raises_on_well_formed_op:" + type(e).__name__,
                      "detail": repr(e)[:200], "rel": "same", "step": i, "op": op[0]}], i, reads
         before = snapshot(built) if check_purity else None
-        fresh = (op[1],) if op[0] == "store" else ()
+        fresh = (op[1],) if op[0] in ("store", "store_rmw") else ()
         d = SM.check_reads(store, model, universe, last_op=op, fresh_store_keys=fresh,
                            strict_dir_metadata=strict_dir_metadata)
         reads += 6 * (len(universe) + 1) + 1
